@@ -3,3 +3,13 @@ chk('C09', 'model_checking',
     'Reference machines (mc/refmodels/seq.py) are trusted; widths/depths/moduli above the bound are not covered; snapshot/restore is validated by replaying every BFS-tree path on a fresh system.',
     'explicit-state model checking of the implementation against a reference machine (product BFS, all inputs per step)',
     'DESIGN.md 4/C09')
+chk('C04', 'model_checking',
+    'Exhaustive enumeration of every small netlist (all digraphs on <=3 blocks incl. self-loops/back edges, DAG(+1 edge) families at 4-5 blocks) x every comb/seq assignment x every instantiation order x flat/hierarchical/late-addition placement; for each accepted netlist BFS over its register states with all input vectors, checking a plain-Python evaluator, the topological validity of Simulator.propagatables and a re-propagation fixpoint in every state; every netlist with a combinational cycle must be refused.',
+    'Harness-defined XNOR blocks stand for arbitrary combinational/sequential leaves; netlists above the node bound are not covered; the reference evaluator in c04.py is trusted.',
+    'bounded exhaustive program+schedule enumeration with explicit-state search per netlist',
+    'DESIGN.md 4/C04')
+chk('C05', 'model_checking',
+    'Explicit-state BFS over each multi-register design (chains, rings, swaps, register/memory loops, FSM+register, all digraphs of three harness sequential blocks, library compositions) with all input vectors; on every transition the edge is re-executed from the restored pre-state under every permutation of the simulator\'s clockable list and compared snapshot-for-snapshot; Wire.prepared checked empty; clk(n) compared with every splitting (n<=4); cross-system interleavings.',
+    'Designs and widths above the bound are not covered; for designs with more than 5 sequential leaves only a stated subset of permutations is used and the evidence marks the shard capped.',
+    'explicit-state search with exhaustive schedule (visit-order permutation) enumeration per transition',
+    'DESIGN.md 4/C05')
